@@ -246,7 +246,7 @@ def check(prop, tier, seed):
     if tier == "quick":
         shards, per, big = 4, (500 if prop == "C17" else 700), 1
     else:
-        shards, per, big = 16, (1000 if prop == "C17" else 1500), 3
+        shards, per, big = 20, (1200 if prop == "C17" else 2000), 3
     stats = collections.Counter()
     jobs = [(hb, work, what, seed * 1000 + s, per, big if s % 3 == 2 else 1, s) for s in range(shards)]
     with ThreadPoolExecutor(max_workers=min(4 if tier == "quick" else 6, shards)) as ex:
